@@ -43,7 +43,8 @@ CHECKS = {
              "(sub-FLOAT_ACCURACY pushes swallowed with their pollutant load) is a recorded known finding. Tie: exact "
              "operation-sequence correspondence of the hand-written models; implementation-side ledger monitor. Every queue tank, decaying or not, satisfies declared contents = arrived + in transit + decay pending report in every reachable state (DecayQTank.v). Whole models "
              "under Model.run (mixed arc classes) and a sewer discharging over every arc class into receivers that fill up: per arc and "
-             "timestep entered = left + change in transit + decayed, nothing but decay between timesteps.",
+             "timestep entered = left + change in transit + decayed, nothing but decay between timesteps."
+             ' Whole models: every fourth is run as two consecutive calls of Model.run with travel-time arcs under way at the boundary (arc ledgers across the boundary).',
         design="5/C02", tech="Coq proof (induction over operation lists, arbitrary end-node oracle) over hand-written models + exact-rational correspondence",
         note=NOTE + "Scope: arcs as components (all eight classes through Arc/QueueArc/AltQueueArc models; DecayArcAlt only inside DecayQueueTank); model-level runs are monitored by C01/C03 once built."),
     "C04": dict(
@@ -65,7 +66,8 @@ CHECKS = {
              "flow_in is lowered only by a timestep end; in EVERY tank state an unforced push yields level <= "
              "max(capacity, level before) with entered + returned = offer; queue tanks: the limited level includes "
              "water still queued (storage = arrived + buckets is an invariant); pulls, evaporation and pollutant pulls "
-             "take at most what is there. Tie: exact correspondence + direct capacity monitor (answers to queries are written on: a store that hands out its own record is seen). The thresholds hard-coded in the models are the constants of the tree under test (T4).",
+             "take at most what is there. Tie: exact correspondence + direct capacity monitor (answers to queries are written on: a store that hands out its own record is seen). The thresholds hard-coded in the models are the constants of the tree under test (T4)."
+             ' Whole models under Model.run, every fifth with parallel arcs between the same pair of nodes: admitted <= capacity per arc and timestep.',
         design="5/C05", tech="Coq proof (invariants by induction over operation lists) over hand-written models + exact-rational correspondence",
         note=NOTE + "Arc-level force=True (used nowhere in the library) is outside the arc clauses: a forced over-capacity push makes the spare capacity negative."),
     "C06": dict(
@@ -73,7 +75,8 @@ CHECKS = {
              "tank operation (wet offers), of every operation sequence on plain arcs between contract-respecting ends, "
              "of queue-tank pushes/pulls/close-outs and of queue-arc admission. Refuted part (QueueArc in-record driven "
              "negative by a late bounce) is a recorded known finding with a model witness replayed on the "
-             "implementation. IEEE rounding is outside the model.",
+             "implementation. IEEE rounding is outside the model."
+             ' Every fifth whole model has parallel arcs between the same pair of nodes.',
         design="5/C06", tech="Coq proof (invariants over operation lists) over hand-written models + exact-rational correspondence",
         note=NOTE + "Scope: component level; whole-model runs are scanned by the network monitors once built.", cat="proof"),
     "C09": dict(
@@ -121,7 +124,8 @@ CHECKS = {
              "monitor (object-graph walk over all Tank instances, queue contents and WWTW liquor; within a timestep stock "
              "changes only by declared boundary terms and decay; across close-out only by recorded decay; every queue tank declares what "
              "it holds plus unbooked decay, also after requests made directly over every arc). An abstraction from a time-area store keeps "
-             "the tank's books (theorem over TimeArea.v, tied by family tarea).",
+             "the tank's books (theorem over TimeArea.v, tied by family tarea)."
+             ' Every fourth whole model is run as two consecutive calls of Model.run (stock ledger across the boundary, water under way in travel-time arcs).',
         design="5/C03", tech="Coq proof of the close-out lemmas + exact-arithmetic whole-model stock monitor (partial)",
         note=NOTE),
     "C12": dict(
@@ -130,7 +134,8 @@ CHECKS = {
              "by zero when all preferences are positive; store operations have no error case. Whole-model totality is "
              "checked by a boundary-stream monitor (all-zero / dry-start / bursty forcing, zero demand, empty and full "
              "stores; exact run: any exception; float run: non-finite scan). Three genuine defects found this way were "
-             "repaired with fix: commits (see known_findings.json). Every division site of the library (table regenerated from the source, T5) is one of the reviewed sites with the same divisor and guards.",
+             "repaired with fix: commits (see known_findings.json). Every division site of the library (table regenerated from the source, T5) is one of the reviewed sites with the same divisor and guards."
+             ' Float stream also: stores that release into the reach they draw from (loops through a reservoir), junction by-passes.',
         design="5/C12", tech="Coq proof of division-site lemmas + boundary-stream whole-model monitor (partial)",
         note=NOTE),
     "C20": dict(
@@ -223,7 +228,8 @@ CHECKS = {
              "from the state reached is the uninterrupted run (for any step function whose whole state is its argument). Tie: "
              "exact correspondence through the real Model.save / config.yml / Model.load. The text layer (yaml, csv, csv.gz), "
              "dill, date classes and all other classes are reached by the whole-model save/load/resave and pickle-at-every-"
-             "boundary monitor only. Five genuine defects were repaired with fix: commits.",
+             "boundary monitor only. Five genuine defects were repaired with fix: commits."
+             ' Pollutant sets with no additive / no non-additive pollutant saved and loaded into a fresh session.',
         design="11/C14", tech="Coq proof (round-trip laws over hand-written parameter models, chunking theorem) + exact correspondence through Model.save/load + whole-model save/load and pickle/resume monitor (partial)",
         note=NOTE),
     "C15": dict(
@@ -237,7 +243,8 @@ CHECKS = {
              "refuted with a witness). Ties: constructor table T3 regenerated from the source (all constructors keep copies: "
              "vm_compute over exactly that table), exact correspondence of the real classes. Behaviour under request "
              "sequences, handler decoration and the remaining classes are reached by the twin / bystander monitor only. Two "
-             "recorded known findings (Node data_input_dict, deposition not enabled by override); three defects repaired.",
+             "recorded known findings (Node data_input_dict, deposition not enabled by override); three defects repaired."
+             ' Every other case hands the overrides to Model.add_overrides (zero values, two entries naming one component in one block).',
         design="11/C15", tech="Coq proof (override algebra + ownership invariant by induction over operation lists) + generated finite table (vm_compute) + exact correspondence + constructed-twin / bystander monitor (partial)",
         note=NOTE),
 }
